@@ -872,7 +872,7 @@ def stepEx (g : Graph) (s3 : QSt) (c : Nat) : Option (QSt × Bool) :=
       let reset :=
         if !s4.pq.isEmpty && s4.pq.all (fun e => ex.contains e.2) then
           match s4.pq, s4.last with
-          | e :: r, some l => decide ((LCA.best e r).1 ≥ g.ts l)
+          | e :: r, some l => catchUp (LCA.best e r).1 (g.ts l)
           | _, _ => false
         else true
       some (s4, reset)
